@@ -1,5 +1,6 @@
 (** Lexer facts for Model/Newick.v: [span], [scan], [scan_iw], [consume_comment] consume
-    input; characterisation of [consume_comment]. *)
+    input; what they return on the tokens the writer emits; characterisation of
+    [consume_comment]. *)
 From Coq Require Import String Ascii ZArith QArith Bool Arith Lia List.
 From GT Require Import Base.UTree Model.Newick Spec.NewickSpec.
 Import ListNotations.
@@ -31,49 +32,6 @@ Proof. induction a; simpl; intros; congruence. Qed.
 Lemma length_app_s : forall a b : string, String.length (a ++ b) = String.length a + String.length b.
 Proof. induction a; simpl; intros; auto. Qed.
 
-(** * span *)
-Lemma span_app : forall p s a b, span p s = (a, b) -> s = a ++ b.
-Proof.
-  induction s; simpl; intros a0 b H.
-  - inversion H; reflexivity.
-  - destruct (p a).
-    + destruct (span p s) as [x y] eqn:E. inversion H; subst. simpl. f_equal. apply IHs. reflexivity.
-    + inversion H; subst. reflexivity.
-Qed.
-
-Lemma span_length : forall p s a b, span p s = (a, b) -> String.length b <= String.length s.
-Proof.
-  intros p s a b H. apply span_app in H. subst. rewrite length_app_s. lia.
-Qed.
-
-
-
-(** [span] stops exactly at the end of a block of good characters followed by a bad one *)
-Definition stops_at (p : ascii -> bool) (s : string) : bool :=
-  match s with String c _ => negb (p c) | EmptyString => true end.
-
-Lemma span_exact : forall p a rest,
-    forall_chars p a = true -> stops_at p rest = true -> span p (a ++ rest) = (a, rest).
-Proof.
-  induction a; simpl; intros rest Ha Hr.
-  - destruct rest as [|c r]; simpl in *; [reflexivity|].
-    apply negb_true_iff in Hr. rewrite Hr. reflexivity.
-  - apply andb_true_iff in Ha. destruct Ha as [Ha1 Ha2]. rewrite Ha1.
-    rewrite (IHa rest Ha2 Hr). reflexivity.
-Qed.
-
-(** ... and somewhere inside a string that contains a bad character *)
-Lemma span_stop_inside : forall p a d k,
-    p d = false -> exists a1 a2, a = a1 ++ a2 /\ span p (a ++ String d k) = (a1, a2 ++ String d k).
-Proof.
-  induction a; simpl; intros d k Hd.
-  - exists "", "". rewrite Hd. split; reflexivity.
-  - destruct (p a) eqn:E.
-    + destruct (IHa d k Hd) as [a1 [a2 [Heq Hs]]]. rewrite Hs.
-      exists (String a a1), a2. split; [simpl; congruence|reflexivity].
-    + exists "", (String a a0). split; reflexivity.
-Qed.
-
 Lemma forall_chars_app : forall p a b,
     forall_chars p (a ++ b) = forall_chars p a && forall_chars p b.
 Proof.
@@ -87,102 +45,107 @@ Proof.
   apply andb_true_iff in H. destruct H. rewrite (Hpq _ H), (IHs Hpq H0). reflexivity.
 Qed.
 
+Definition no_nul (s : string) : bool := forall_chars (fun c => negb (is_nul c)) s.
+
+(** * span *)
+Lemma span_length : forall p s a b, span p s = (a, b) ->
+    String.length a + String.length b <= String.length s.
+Proof.
+  induction s; simpl; intros a0 b H.
+  - inversion H; simpl; lia.
+  - destruct (is_nul a); [inversion H; subst; simpl; lia|].
+    destruct (p a).
+    + destruct (span p s) as [x y] eqn:E. inversion H; subst. specialize (IHs x b eq_refl). simpl. lia.
+    + inversion H; subst. simpl. lia.
+Qed.
+
+(** [span] stops exactly at the end of a block of good characters followed by a bad one *)
+Definition stops_at (p : ascii -> bool) (s : string) : bool :=
+  match s with String c _ => negb (p c) && negb (is_nul c) | EmptyString => true end.
+
+Lemma span_exact : forall p a rest,
+    forall_chars p a = true -> no_nul a = true -> stops_at p rest = true -> span p (a ++ rest) = (a, rest).
+Proof.
+  induction a; simpl; intros rest Ha Hn Hr.
+  - destruct rest as [|c r]; simpl in *; [reflexivity|].
+    apply andb_true_iff in Hr. destruct Hr as [Hr1 Hr2].
+    apply negb_true_iff in Hr1. apply negb_true_iff in Hr2. rewrite Hr1, Hr2. reflexivity.
+  - apply andb_true_iff in Ha. destruct Ha as [Ha1 Ha2].
+    unfold no_nul in Hn. simpl in Hn. apply andb_true_iff in Hn. destruct Hn as [Hn1 Hn2].
+    apply negb_true_iff in Hn1. rewrite Hn1, Ha1.
+    rewrite (IHa rest Ha2 Hn2 Hr). reflexivity.
+Qed.
+
+(** ... and somewhere inside a string that contains a bad character *)
+Lemma span_stop_inside : forall p a d k,
+    p d = false -> is_nul d = false -> no_nul a = true ->
+    exists a1 a2, a = a1 ++ a2 /\ span p (a ++ String d k) = (a1, a2 ++ String d k).
+Proof.
+  induction a; simpl; intros d k Hd Hz Hn.
+  - exists "", "". rewrite Hd, Hz. split; reflexivity.
+  - unfold no_nul in Hn. simpl in Hn. apply andb_true_iff in Hn. destruct Hn as [Hn1 Hn2].
+    apply negb_true_iff in Hn1. rewrite Hn1.
+    destruct (p a) eqn:E.
+    + destruct (IHa d k Hd Hz Hn2) as [a1 [a2 [Heq Hs]]]. rewrite Hs.
+      exists (String a a1), a2. split; [simpl; congruence|reflexivity].
+    + exists "", (String a a0). split; reflexivity.
+Qed.
+
 Section Lex.
   Variable numeric : string -> bool.
 
-  (** every token but EOF consumes at least one character *)
-  Lemma scan_app : forall ign s tok lit r,
-      scan numeric ign s = (tok, lit, r) -> s = lit ++ r.
-  Proof.
-    intros ign s tok lit r H. destruct s as [|c s]; simpl in H.
-    - inversion H; reflexivity.
-    - repeat break_match_hyp; inversion H; subst; ascii_eqs; subst; simpl; try reflexivity;
-        f_equal; eapply span_app; eassumption.
-  Qed.
-
-  Lemma scan_eof : forall ign s lit r, scan numeric ign s = (EOF, lit, r) -> s = "" /\ lit = "" /\ r = "".
-  Proof.
-    intros ign s lit r H. destruct s as [|c s]; simpl in H.
-    - inversion H; auto.
-    - repeat break_match_hyp; inversion H.
-  Qed.
-
+  (** every token but EOF has a non-empty literal; every scan consumes what it returns *)
   Lemma scan_lit_nonempty : forall ign s tok lit r,
       scan numeric ign s = (tok, lit, r) -> tok <> EOF -> lit <> "".
   Proof.
     intros ign s tok lit r H Hne. destruct s as [|c s]; simpl in H.
     - inversion H; subst. congruence.
-    - repeat break_match_hyp; inversion H; subst; discriminate.
+    - repeat break_match_hyp; inversion H; subst; try discriminate; congruence.
   Qed.
+
+  Lemma scan_consumes : forall ign s tok lit r,
+      scan numeric ign s = (tok, lit, r) -> String.length lit + String.length r <= String.length s.
+  Proof.
+    intros ign s tok lit r H. destruct s as [|c s]; simpl in H.
+    - inversion H; simpl; lia.
+    - repeat break_match_hyp; inversion H; subst; simpl; try lia;
+        match goal with E : span _ _ = _ |- _ => apply span_length in E; lia end.
+  Qed.
+
+  Lemma scan_length_le : forall ign s tok lit r,
+      scan numeric ign s = (tok, lit, r) -> String.length r <= String.length s.
+  Proof. intros ign s tok lit r H. apply scan_consumes in H. lia. Qed.
 
   Lemma scan_length : forall ign s tok lit r,
       scan numeric ign s = (tok, lit, r) -> tok <> EOF -> String.length r < String.length s.
   Proof.
     intros ign s tok lit r H Hne.
-    pose proof (scan_app _ _ _ _ _ H) as Happ.
-    pose proof (scan_lit_nonempty _ _ _ _ _ H Hne) as Hl.
-    subst s. rewrite length_app_s. destruct lit; [congruence|simpl; lia].
-  Qed.
-
-  Lemma scan_length_le : forall ign s tok lit r,
-      scan numeric ign s = (tok, lit, r) -> String.length r <= String.length s.
-  Proof.
-    intros ign s tok lit r H. apply scan_app in H. subst. rewrite length_app_s. lia.
-  Qed.
-
-  (** a WS token is a maximal run: the next token is not WS *)
-  Lemma span_ws_next : forall s a b, span is_ws s = (a, b) ->
-      match b with String c _ => is_ws c = false | EmptyString => True end.
-  Proof.
-    induction s; simpl; intros x y H.
-    - inversion H; exact I.
-    - destruct (is_ws a) eqn:E.
-      + destruct (span is_ws s) as [u v] eqn:E2. inversion H; subst. eapply IHs; reflexivity.
-      + inversion H; subst. exact E.
-  Qed.
-
-  Lemma scan_ws_rest : forall s lit r, scan numeric false s = (WS, lit, r) ->
-      match r with String c _ => is_ws c = false | EmptyString => True end.
-  Proof.
-    intros s lit r H. destruct s as [|c s]; simpl in H; [inversion H|].
-    destruct (is_ws c) eqn:E.
-    - destruct (span is_ws s) as [u v] eqn:E2. inversion H; subst. eapply span_ws_next; eassumption.
-    - repeat break_match_hyp; inversion H.
-  Qed.
-
-  Lemma scan_not_ws_start : forall ign c s tok lit r,
-      is_ws c = false -> scan numeric ign (String c s) = (tok, lit, r) -> tok <> WS.
-  Proof.
-    intros ign c s tok lit r Hc H. simpl in H. rewrite Hc in H.
-    repeat break_match_hyp; inversion H; subst; discriminate.
+    pose proof (scan_consumes _ _ _ _ _ H). pose proof (scan_lit_nonempty _ _ _ _ _ H Hne).
+    destruct lit; [congruence|simpl in *; lia].
   Qed.
 
   Lemma scan_iw_spec : forall s tok lit r pre,
       scan_iw numeric s = (tok, lit, r, pre) ->
-      scan numeric false pre = (tok, lit, r) /\ String.length pre <= String.length s /\ tok <> WS.
+      scan numeric false pre = (tok, lit, r) /\ String.length pre <= String.length s.
   Proof.
     intros s tok lit r pre H. unfold scan_iw in H.
     destruct (scan numeric false s) as [[t l] r0] eqn:E.
-    destruct t; try (inversion H; subst; split; [assumption|split; [lia|discriminate]]).
+    destruct t; try (inversion H; subst; split; [assumption|lia]).
     destruct (scan numeric false r0) as [[t2 l2] r2] eqn:E2. inversion H; subst.
-    split; [assumption|]. split.
-    - eapply scan_length_le; eassumption.
-    - pose proof (scan_ws_rest _ _ _ E) as Hr. destruct pre as [|c p].
-      + simpl in E2. inversion E2. discriminate.
-      + eapply scan_not_ws_start; eassumption.
+    split; [assumption|]. eapply scan_length_le; eassumption.
   Qed.
 
   Lemma scan_iw_length : forall s tok lit r pre,
       scan_iw numeric s = (tok, lit, r, pre) -> tok <> EOF -> String.length r < String.length s.
   Proof.
-    intros s tok lit r pre H Hne. apply scan_iw_spec in H. destruct H as [H [Hl _]].
+    intros s tok lit r pre H Hne. apply scan_iw_spec in H. destruct H as [H Hl].
     pose proof (scan_length _ _ _ _ _ H Hne). lia.
   Qed.
 
   Lemma scan_iw_length_le : forall s tok lit r pre,
       scan_iw numeric s = (tok, lit, r, pre) -> String.length r <= String.length s.
   Proof.
-    intros s tok lit r pre H. apply scan_iw_spec in H. destruct H as [H [Hl _]].
+    intros s tok lit r pre H. apply scan_iw_spec in H. destruct H as [H Hl].
     pose proof (scan_length_le _ _ _ _ _ H). lia.
   Qed.
 
@@ -211,18 +174,20 @@ Section Lex.
   Lemma scan_ident : forall n rest,
       n <> "" ->
       match n with String c _ => is_ws c = false | EmptyString => True end ->
-      forall_chars (is_ident false) n = true ->
+      forall_chars (is_ident false) n = true -> no_nul n = true ->
       stops_at (is_ident false) rest = true ->
       scan numeric false (n ++ rest) = (if numeric n then NUMERIC else IDENT, n, rest).
   Proof.
-    intros n rest Hne Hws Hall Hstop. destruct n as [|c n]; [congruence|].
+    intros n rest Hne Hws Hall Hnn Hstop. destruct n as [|c n]; [congruence|].
     simpl in Hall. apply andb_true_iff in Hall. destruct Hall as [Hc Hn].
-    simpl. rewrite Hws.
+    unfold no_nul in Hnn. simpl in Hnn. apply andb_true_iff in Hnn. destruct Hnn as [Hz Hnn].
+    apply negb_true_iff in Hz.
+    simpl. rewrite Hz, Hws.
     unfold is_ident, is_meta in Hc.
     destruct (Ascii.eqb c "[") eqn:E3, (Ascii.eqb c "]") eqn:E4, (Ascii.eqb c "(") eqn:E1,
              (Ascii.eqb c ")") eqn:E2, (Ascii.eqb c ",") eqn:E5, (Ascii.eqb c ":") eqn:E7,
              (Ascii.eqb c ";") eqn:E6; simpl in Hc; try discriminate.
-    simpl. rewrite (span_exact _ _ _ Hn Hstop). reflexivity.
+    simpl. rewrite (span_exact _ _ _ Hn Hnn Hstop). reflexivity.
   Qed.
 
   Lemma scan_iw_direct : forall s tok lit r,
@@ -234,7 +199,7 @@ Section Lex.
   Lemma scan_iw_ident : forall n rest,
       n <> "" ->
       match n with String c _ => is_ws c = false | EmptyString => True end ->
-      forall_chars (is_ident false) n = true ->
+      forall_chars (is_ident false) n = true -> no_nul n = true ->
       stops_at (is_ident false) rest = true ->
       scan_iw numeric (n ++ rest) = (if numeric n then NUMERIC else IDENT, n, rest, n ++ rest).
   Proof.
@@ -243,21 +208,35 @@ Section Lex.
   Qed.
 
   (** * consume_comment reads up to the first "]" *)
+  Lemma comment_chars_split : forall a b,
+      forall_chars comment_char (a ++ b) = true ->
+      forall_chars comment_char a = true /\ forall_chars comment_char b = true.
+  Proof. intros a b H. rewrite forall_chars_app in H. apply andb_true_iff in H. exact H. Qed.
+
+  Lemma comment_no_nul : forall c, forall_chars comment_char c = true -> no_nul c = true.
+  Proof.
+    intros c H. unfold no_nul. eapply forall_chars_impl; [|exact H].
+    intros x Hx. unfold comment_char in Hx. apply andb_true_iff in Hx. tauto.
+  Qed.
+
   Lemma scan_in_comment : forall a c k,
-      Ascii.eqb a "]" = false ->
-      forall_chars (fun x => negb (Ascii.eqb x "]")) c = true ->
+      comment_char a = true ->
+      forall_chars comment_char c = true ->
       exists tok lit c',
         scan numeric true (String a (c ++ String "]" k)) = (tok, lit, c' ++ String "]" k) /\
         String a c = lit ++ c' /\ tok <> CLOSEBRACK /\ tok <> EOF /\ tok <> ILLEGAL /\
-        forall_chars (fun x => negb (Ascii.eqb x "]")) c' = true.
+        forall_chars comment_char c' = true.
   Proof.
     intros a c k Ha Hc.
+    unfold comment_char in Ha. apply andb_true_iff in Ha. destruct Ha as [Ha Hz].
+    apply negb_true_iff in Ha. apply negb_true_iff in Hz.
     assert (Hsub : forall (p : ascii -> bool), p "]"%char = false ->
-              exists a1 a2, c = a1 ++ a2 /\ span p (c ++ String "]" k) = (a1, a2 ++ String "]" k) /\ forall_chars (fun x => negb (Ascii.eqb x "]")) a2 = true).
-    { intros p Hp. destruct (span_stop_inside p c "]" k Hp) as [a1 [a2 [Heq Hs]]].
+              exists a1 a2, c = a1 ++ a2 /\ span p (c ++ String "]" k) = (a1, a2 ++ String "]" k) /\
+                            forall_chars comment_char a2 = true).
+    { intros p Hp. destruct (span_stop_inside p c "]" k Hp eq_refl (comment_no_nul c Hc)) as [a1 [a2 [Heq Hs]]].
       exists a1, a2. split; [assumption|]. split; [assumption|].
-      subst c. rewrite forall_chars_app in Hc. apply andb_true_iff in Hc. tauto. }
-    simpl. destruct (is_ws a) eqn:Ews.
+      subst c. apply comment_chars_split in Hc. tauto. }
+    simpl. rewrite Hz. destruct (is_ws a) eqn:Ews.
     - destruct (Hsub is_ws eq_refl) as [a1 [a2 [Heq [Hs Hok]]]]. rewrite Hs.
       exists WS, (String a a1), a2. subst c. repeat split; try discriminate; assumption.
     - destruct (Ascii.eqb a "(") eqn:E1.
@@ -279,13 +258,13 @@ Section Lex.
 
   Lemma consume_comment_spec : forall fuel c acc k,
       String.length c < fuel ->
-      forall_chars (fun x => negb (Ascii.eqb x "]")) c = true ->
+      forall_chars comment_char c = true ->
       consume_comment numeric fuel acc (c ++ String "]" k) = COk (acc ++ c) k.
   Proof.
     induction fuel; intros c acc k Hlt Hc; [lia|].
     destruct c as [|a c].
     - simpl. rewrite app_empty_r. reflexivity.
-    - simpl in Hc. apply andb_true_iff in Hc. destruct Hc as [Ha Hc]. apply negb_true_iff in Ha.
+    - simpl in Hc. apply andb_true_iff in Hc. destruct Hc as [Ha Hc].
       destruct (scan_in_comment a c k Ha Hc) as [tok [lit [c' [Hs [Heq [H1 [H2 [H3 Hok]]]]]]]].
       change (String a c ++ String "]" k) with (String a (c ++ String "]" k)).
       cbn [consume_comment]. rewrite Hs.
